@@ -28,6 +28,13 @@ P["C11"] = dict(
     design_ref="3 TAB-fmt, 4 C11",
 )
 
+P["C03"] = dict(
+    text="Interprocedural error-discipline analysis over every function reachable from the entry points (225 functions returning Result<_,()>): a path-state search per function (state: reported-must / reported-may / abstract Result tags / flag values / open diagnostic parents / is_last_iteration knowledge) with fixpoint summaries decides (ERR1) every path that returns Err(()) has pushed an error message, so assemble()'s own assertion cannot fail and no failure is silent; (ERR3) every Unresolved / Ok(None) produced in a last pass is preceded by a message; (ERR2-top) the assembled output is stored only on paths where no error can have been reported since the last stop_at_errors barrier, nothing that can report follows the store, and every Ok path stores it; (ERR4) the driver writes/prints only behind the output test and main's exit status follows the verdict; (ERR5) no Result of a fallible call made with the caller's report is dropped; (PAIR) push_parent/pop_parent balance. All paths and call sites are covered, where each test exercises one.",
+    note="Decides the loud-failure / clean-success clauses structurally. NOT decided: general panic freedom (451 bounds/overflow assertions and 231 unwrap/expect/unreachable sites rest on run-time invariants; the crash classes that are structural are decided under C13 (byte/char units) and C19 (recursion, unchecked arithmetic)) and I/O fault injection (static counterpart only: every std::fs error arm of FileServerReal pushes and returns Err, via ERR1). Audited exceptions are in tables/err.json, one named function each. Assumes messages pushed under an error-kind parent count as errors (Report::message wraps in parents).",
+    technique="static analysis: interprocedural path-sensitive dataflow over MIR (must/may 'reported' facts, Result-tag tracking through `?`, greatest/least fixpoint summaries R/Mok/E/A), dominance checks for the driver",
+    design_ref="3 ERR, 4 C03",
+)
+
 NA_PENDING = "check not built yet (build in progress, see DESIGN.md section 9)"
 
 
